@@ -11,7 +11,7 @@ DISTINCT_RULE = (
     "distinct = (side, lone?, queue ahead?, filled?, #passive fragments<=3) per resting order and (#orders filled, #traded prices, isolation) per update with fills"
 )
 RULES = ["passive-fragment", "order-update", "lone-equality", "aggregate", "priority"]
-MINIMA = {"quick": {"rule_order-update": 20000, "rule_lone-equality": 4000, "rule_aggregate": 1500, "rule_passive-fragment": 2000, "rule_priority": 100}, "thorough": {"rule_order-update": 800000}}
+MINIMA = {"quick": {"rule_order-update": 20000, "rule_lone-equality": 4000, "rule_aggregate": 1500, "rule_passive-fragment": 2000, "rule_priority": 30}, "thorough": {"rule_order-update": 800000}}
 ASSUMPTIONS = [
     "traded ledger = positive deltas of cumulative trd per runner and price, read from the raw file lines",
     "simulation_available_prices is False (the documented double-counting mode is excluded)",
@@ -22,7 +22,7 @@ SCRIPT = {"n_orders": (1, 7), "types": ("LIMIT",), "modes": ("rest", "rest", "jo
 
 
 def plan(tier, seed):
-    n = 2000 if tier == "quick" else 64000
+    n = 7000 if tier == "quick" else 80000
     return [{"seed": seed, "idx": i} for i in range(n)]
 
 
